@@ -281,6 +281,12 @@ def run_suite(cx, work, suite, args, seed, tier, replay=None):
             rows.append(dict(seq=seq, now=0, db=0, cmd=ca + [b'||'] + cb + [b'@' + w[ik + 1].encode()], kind='schedule', payload=b'', pre='', post='x',
                              name=(ca[0].decode('latin1').lower() if ca else '') + '||' + (cb[0].decode('latin1').lower() if cb else ''),
                              model=m[0], detail=m[1], f=m[2], suite=suite, line='X'))
+        elif l.startswith('S '):
+            w = l.rstrip('\n').split(' ')
+            seq = w[1]
+            m = verd.get(seq, ('?', 'no verdict', {}))
+            rows.append(dict(seq=seq, now=0, db=0, cmd=[('threshold=%s changes=%s' % (w[2], w[3])).encode()], kind='fired=' + w[4], payload=b'', pre='', post='x', name='auto-snapshot',
+                             model=m[0], detail=m[1], f=m[2], suite=suite, line='X'))
         elif l.startswith('X '):
             w = l.split(' ', 12)
             seq = w[1]
@@ -328,6 +334,8 @@ def run_suite(cx, work, suite, args, seed, tier, replay=None):
 def seq_prefix(seqmap, seqid):
     if seqid in seqmap and ('z' in seqmap[seqid] or 'writes' in seqmap[seqid] or 'glob' in seqmap[seqid]):
         return seqmap[seqid]                      # a single authorization decision / one wire session
+    if seqid in seqmap and 'auto' in seqmap[seqid]:
+        return seqmap[seqid]                      # one automatic-snapshot trial
     parts = seqid.split('.')
     if parts[0] in seqmap and 'base' in seqmap[parts[0]]:
         return seqmap[parts[0]]                   # an interleaving experiment: all schedules of the pair are re-run
@@ -390,7 +398,7 @@ def failing(row, column):
 
 def shrink(cx, work, suite, seq, pred, budget=60):
     """greedy one-op-at-a-time removal keeping `pred(last row)` true"""
-    if 'ops' not in seq:
+    if not seq.get('ops'):
         return seq
     ops = seq['ops']
     tries = 0
